@@ -157,6 +157,13 @@ def _merge_products(operands_1, operands_2):
         return operands_2
     if len(operands_2) == 0:
         return operands_1
+    # a collected factor can itself be a product: keep the operand lists flat
+    if operands_1[0].operator == MULTIPLICATION:
+        return _merge_products(list(operands_1[0].operands) + operands_1[1:],
+                               operands_2)
+    if operands_2[0].operator == MULTIPLICATION:
+        return _merge_products(operands_1,
+                               list(operands_2[0].operands) + operands_2[1:])
 
     simplified_firsts = _simplify_product_rec([operands_1[0], operands_2[0]])
     if len(simplified_firsts) == 0:
@@ -239,6 +246,13 @@ def _merge_sums(operands_1, operands_2):
         return operands_2
     if len(operands_2) == 0:
         return operands_1
+    # a collected term can itself be a sum: keep the operand lists flat
+    if operands_1[0].operator == ADDITION:
+        return _merge_sums(list(operands_1[0].operands) + operands_1[1:],
+                           operands_2)
+    if operands_2[0].operator == ADDITION:
+        return _merge_sums(operands_1,
+                           list(operands_2[0].operands) + operands_2[1:])
 
     simplified_firsts = _simplify_sum_rec([operands_1[0], operands_2[0]])
     if len(simplified_firsts) == 0:
